@@ -13,9 +13,9 @@ TYPE_NAME = {"hg": "Hypergraph", "dir": "DirectedHypergraph", "temp": "TemporalH
 XS = {"hg": [0], "dir": [0], "temp": [0, 1, 2], "mux": ["L1", "L2"]}
 
 
-def consts(kind, weighted, n=3, maxw=2, batches=True, metaops=True, xs=None, mkeys=("a",)):
+def consts(kind, weighted, n=3, maxw=2, batches=True, metaops=True, xs=None, mkeys=("a",), mvals=("0", "1")):
     return {"Kind": kind, "Node": set(range(1, n + 1)), "MaxW": maxw, "MKeys": set(mkeys),
-            "MVals": {"0", "1"}, "XS": set(xs if xs is not None else XS[kind]),
+            "MVals": set(mvals), "XS": set(xs if xs is not None else XS[kind]),
             "Weighted": weighted, "Batches": batches, "MetaOps": metaops}
 
 
@@ -147,30 +147,36 @@ def py_behaviour(kind, weighted, n, length, rng, xs=None):
 # ---------------------------------------------------------------------------
 # behaviours -> real executions -> traces
 class Replayer:
-    """executes spec-level calls on real objects and logs one event per call"""
+    """executes spec-level calls on real objects and logs one event per call
+
+    plan: extra pure / derived events interleaved after a call with the given probability, e.g.
+          {"derive": ("sub", 0.5), "saveload": 0.3, "hash": 1.0, "filter": 0.1}
+    """
 
     def __init__(self, kind, weighted, n, family="ident", seed=0, full=True, cc=False,
-                 copies=False, extra=None):
+                 copies=False, queries=True, plan=None, exhaustive_derive=True):
         self.kind, self.weighted, self.n = kind, weighted, n
         self.rng = random.Random(seed)
         self.b = Binding(kind, LABEL_FAMILIES[family](n), self.rng)
         self.family = family
         self.universe = list(range(1, n + 1))
-        self.full, self.cc, self.copies = full, cc, copies
-        self.extra = extra            # callable(replayer, obj_id, event) adding derived observations
+        self.full, self.cc, self.copies, self.queries = full, cc, copies, queries
+        self.plan = plan or {}
+        self.exhaustive_derive = exhaustive_derive
         self.objs = {}
         self.events = []
         self.skipped = 0
+        self.scratch = tlc.WORK
 
     def _snap(self):
         return [[i, self.b.state(o)] for i, o in sorted(self.objs.items())]
 
-    def _log(self, oid, op, ok, queries=True):
+    def _log(self, oid, op, ok, queries=None, more=None):
         ev = {"obj": oid, "op": op, "ok": ok, "st": self._snap()}
-        if queries:
+        if more:
+            ev.update(more)
+        if self.queries if queries is None else queries:
             ev["q"] = self.b.queries(self.objs[oid], self.universe, full=self.full, cc=self.cc)
-        if self.extra:
-            self.extra(self, oid, ev)
         self.events.append(ev)
         return ev
 
@@ -191,27 +197,52 @@ class Replayer:
         ok = self.b.apply(obj, op)
         return self._log(oid, op, ok)
 
+    def extras(self, oid):
+        from . import derive as D
+        os.makedirs(self.scratch, exist_ok=True)
+        rng = self.rng
+        p = self.plan
+        if "filter" in p and rng.random() < p["filter"]:
+            ev = D.filter_call(self, oid)
+            if ev is not None:
+                self._log(oid, ev["op"], ev["ok"])
+        if "derive" in p and rng.random() < p["derive"][1]:
+            ev = D.derive_event(self, oid, p["derive"][0])
+            self._log(oid, ev["op"], True, queries=False, more={"d": ev["d"]})
+        if "saveload" in p and rng.random() < p["saveload"]:
+            ev = D.saveload_event(self, oid, binary=rng.random() < 0.5)
+            more = {"loaded": ev["loaded"]} if "loaded" in ev else None
+            self._log(oid, ev["op"], ev["ok"], queries=False, more=more)
+        if "hash" in p and rng.random() < p["hash"]:
+            ev = D.hash_event(self, oid)
+            # digests are only comparable under one label map: tag them with the family
+            more = {"digest": self.family + ":" + ev["digest"], "lab": self.family} if "digest" in ev else None
+            self._log(oid, ev["op"], ev["ok"], queries=False, more=more)
+
     def run(self, ops):
+        from .binding import UNSUPPORTED
         self.new(0)
-        copy_at = self.rng.randrange(1, max(2, len(ops))) if (self.copies and "copy" not in
-                                                              __import__("harness.binding", fromlist=["UNSUPPORTED"]).UNSUPPORTED[self.kind]) else None
+        self.extras(0)
+        can_copy = self.copies and "copy" not in UNSUPPORTED[self.kind]
+        copy_at = self.rng.randrange(1, max(2, len(ops))) if can_copy else None
         for i, op in enumerate(ops):
             if copy_at is not None and i == copy_at:
                 self.copy(0, 1)
             oid = 0
             if 1 in self.objs and self.rng.random() < 0.5:
                 oid = 1
-            self.call(oid, op)
+            if self.call(oid, op) is not None:
+                self.extras(oid)
         return self.events
 
 
 def replay_many(kind, weighted, behaviours, n, families=("ident",), seed=0, full=True, cc=False,
-                copies=False, extra=None):
+                copies=False, queries=True, plan=None, exhaustive_derive=True):
     traces, meta = [], []
     for i, ops in enumerate(behaviours):
         fam = families[i % len(families)]
         r = Replayer(kind, weighted, n, fam, seed=seed * 100003 + i, full=full, cc=cc, copies=copies,
-                     extra=extra)
+                     queries=queries, plan=plan, exhaustive_derive=exhaustive_derive)
         traces.append(r.run(ops))
         meta.append({"family": fam, "seed": seed * 100003 + i, "labels": r.b.labels, "skipped": r.skipped,
                      "ops": ops})
